@@ -403,12 +403,13 @@ func newAddPathsFromConfigStruct(c *AddPaths) *api.AddPaths {
 func newRouteSelectionOptionsFromConfigStruct(c *RouteSelectionOptions) *api.RouteSelectionOptions {
 	return &api.RouteSelectionOptions{
 		Config: &api.RouteSelectionOptionsConfig{
-			AlwaysCompareMed:        c.Config.AlwaysCompareMed,
-			IgnoreAsPathLength:      c.Config.IgnoreAsPathLength,
-			ExternalCompareRouterId: c.Config.ExternalCompareRouterId,
-			AdvertiseInactiveRoutes: c.Config.AdvertiseInactiveRoutes,
-			EnableAigp:              c.Config.EnableAigp,
-			IgnoreNextHopIgpMetric:  c.Config.IgnoreNextHopIgpMetric,
+			AlwaysCompareMed:         c.Config.AlwaysCompareMed,
+			IgnoreAsPathLength:       c.Config.IgnoreAsPathLength,
+			ExternalCompareRouterId:  c.Config.ExternalCompareRouterId,
+			AdvertiseInactiveRoutes:  c.Config.AdvertiseInactiveRoutes,
+			EnableAigp:               c.Config.EnableAigp,
+			IgnoreNextHopIgpMetric:   c.Config.IgnoreNextHopIgpMetric,
+			DisableBestPathSelection: c.Config.DisableBestPathSelection,
 		},
 	}
 }
